@@ -16,6 +16,22 @@ import (
 
 type arRefState struct {
 	vars map[string]string // x, y, e, u, i ... and "arr[0]" style elements
+	// a negative subscript beyond the first element was used: bash prints a
+	// diagnostic and goes on; what it then computes is not predicted
+	unpredicted bool
+}
+
+// arrLen is the highest index of arr plus one.
+func (st *arRefState) arrLen() int64 {
+	n := int64(0)
+	for k, v := range st.vars {
+		if strings.HasPrefix(k, "arr[") && v != "" {
+			if i, err := strconv.ParseInt(k[4:len(k)-1], 10, 64); err == nil && i+1 > n {
+				n = i + 1
+			}
+		}
+	}
+	return n
 }
 
 func newArRefState() *arRefState {
@@ -151,6 +167,11 @@ func (p *arRefParser) readtok() {
 			}
 			// the subscript is evaluated on its own (it is a literal here)
 			idx := p.subexpr(s[j+1 : j+k])
+			if idx < 0 { // counted from the end
+				if idx += p.st.arrLen(); idx < 0 {
+					p.st.unpredicted = true
+				}
+			}
 			name = name + "[" + strconv.FormatInt(idx, 10) + "]"
 			j += k + 1
 		}
